@@ -27,7 +27,7 @@ import (
 
 func TestMain(m *testing.M) {
 	stats.Init("C14")
-	stats.Rule("dial scripts of 3-14 steps over {refuse, reject (closed in Attaching), drop after 0/5/120 ms, stay}, ReconnectTime r in {5,10,20,50 ms}, MaxReconnectTime in {0,r,2r,8r,40r}, DialAsynch in {true,false}, Close of dialer or socket at a drawn phase (between attempts, during a hanging attempt, while connected); dedicated reset scripts (>=10 refusals, lasting attach, drop); real-socket variant with the listener restarted 1-3 times. Non-trivial: >=2 faults in sequence; distinct by (script, r, max, asynch, close phase)")
+	stats.Rule("dial scripts of 3-14 steps over {refuse, reject (closed in Attaching), drop after 0/5/120 ms, stay}, ReconnectTime r in {5,10,20,50 ms}, MaxReconnectTime in {0,r,2r,8r,40r}, DialAsynch in {true,false}, Close of dialer or socket at a drawn phase (between attempts, during a hanging attempt, while connected); dedicated reset scripts (>=10 refusals, lasting attach, drop); real-socket variant with the listener restarted 1-3 times. Also: rejection by the Attaching callback or by the protocol's AddPipe; listener closed and replaced on the same address while 1-3 dial attempts are pending (5 transports). Non-trivial: >=2 faults in sequence; distinct by (script, r, max, asynch, close phase)")
 	stats.Assume("lower bounds (gap >= reconnect time / grown delay) are exact; upper bounds carry 40 ms + 5 % slack and, like the back-off reset and no-attempt-after-Close checks, count only if they fail in 3 consecutive executions of the same case")
 	rc := m.Run()
 	stats.Flush()
